@@ -27,6 +27,42 @@ CHECKS = {
     'C09': dict(cat='exploration', tech='bounded-exhaustive enumeration of the spline-space lattice: stored basis integrals and quadrature weights (repeated calls included) against exact rational integrals and weights',
                 text='For every space of the lattice the stored basis integrals (folded on periodic spaces) and the quadrature coefficients, requested repeatedly on the same objects, are compared with exact rational values; weight sum, equality on uniform periodic spaces and exactness for every unit data vector follow.',
                 note='trusted: pgv.refspline exact integration (open Newton-Cotes in Fractions).', ref='DESIGN.md section 3 C09'),
+    'C05': dict(cat='exploration', tech='exhaustive enumeration of admissible process grids x configurations on the simulated MPI world; per-slice wiring oracle (serial operator objects called with global indices) + differential against the serial world; deviation-bounded schedule exploration of a 2x2 run',
+                text='For every admissible process grid up to the rank bound the real set-up, every grid-level operator, the density/quasi-neutrality pipeline and complete driver steps are executed on all simulated ranks; each local slice must equal the slice-level operator with the parameters of its global indices, assembled fields must equal the serial world, and a 2x2 pipeline is explored under all schedules within the deviation bound.',
+                note='slice-level operators are decided by C10-C13/C16; trusted: simmpi/simh5; grids and sizes beyond the bound are not covered.', ref='DESIGN.md section 3 C05'),
+    'C06': dict(cat='model_checking', tech='stateless schedule exploration (exhaustive for 2-rank worlds, deviation-bounded otherwise) of the real code under a simulated MPI world in two blocking modes with collective-signature matching; exhaustive exploration of route-search tie-break answers (hash-seed seam) and of single clock jumps in the driver',
+                text='Every execution within the bounds is checked for matching collective signatures (operation, root, count, datatype), absence of deadlock, termination, schedule-independent per-rank traces and outcomes; the route map is shown independent of every answer of min() over the unvisited set for all graphs on <= 4 layouts x all insertion orders and for real layout sets (6-cycle included); the seam is bound to the code by runs under 8-16 real hash seeds.',
+                note='trusted: simmpi matching rules and blocking modes S/N bracket conforming MPI; deviation bounds are reported; no random schedules (sampling is a different family).', ref='DESIGN.md section 3 C06'),
+    'C10': dict(cat='exploration', tech='bounded-exhaustive enumeration of (grid sizes, theta spline path, iota, displacement classes, (r,v) indices) x basis data against an independent implementation of the stated formula with exact-rational theta interpolation',
+                text='Every step() of the enumerated operator configurations is compared at all nodes with the field-aligned Lagrange/spline formula computed independently (full operator matrix through unit impulses for selected configurations); constants, z-shift commutation and integer-displacement circular shifts are checked as identities.',
+                note='trusted: pgv.refspline; linearity in f; displacement and twist classes as listed in the evidence rule.', ref='DESIGN.md section 3 C10'),
+    'C11': dict(cat='exploration', tech='bounded-exhaustive enumeration of (n_v, spline path, boundary mode, shift class incl. several domain widths, sign via c and via dt, radius) x unit/zero/dense data against exact-rational interpolation matrices and a closed-form equilibrium',
+                text='Every step() of the lattice is compared with the interpolant evaluated at v-c*dt (exact-rational evaluation matrices) and the stated boundary rule per mode; feet within rounding distance of a boundary are excluded as the property allows; the grid-level clause is decided by the wiring oracle of C05.',
+                note='trusted: pgv.refspline; grid-level clause: C05.', ref='DESIGN.md section 3 C11'),
+    'C12': dict(cat='exploration', tech='bounded-exhaustive enumeration of (grid, spline path, potential, dt, v, boundary mode, time scheme) against an independent Heun / clipped fixed-point implementation; watchdog for termination',
+                text='Feet arrays and values of every enumerated step are compared with an independent implementation of the stated scheme (nodes whose stage feet are within rounding distance of the radial boundary skipped and counted); constant potential, rigid rotation, third-order agreement of the two schemes and termination of the implicit iteration are checked.',
+                note='trusted: pgv.refspline; implicit scheme compared in the contractive regime; non-termination for non-contractive potentials is a recorded known finding.', ref='DESIGN.md section 3 C12'),
+    'C13': dict(cat='exploration', tech='bounded-exhaustive enumeration of (order, grid sizes, theta spline path, iota incl. r-dependent profile, process grid / rank / radial index) x impulses against exact rational finite-difference weights and exact-rational field-line interpolation; repeated calls',
+                text='Every parallel_gradient call of the lattice (objects built per rank with that rank\'s layout, each radius called repeatedly) is compared with b_z(r)/dz times the exact-weight finite-difference combination along the field line; full operator matrix for selected configurations; constants and z-shift identities.',
+                note='trusted: pgv.refspline, exact Vandermonde solve; convergence order is the exact weight identity, no rates measured.', ref='DESIGN.md section 3 C13'),
+    'C14': dict(cat='exploration', tech='bounded-exhaustive enumeration of (degree, cells, path, n_theta parity, coefficient menu, A, Neumann lists, quadrature degree, process count) x unit right-hand sides against an independent dense Galerkin assembly',
+                text='Every mode solve for every unit impulse (discrete path) and monomial (function path) of the lattice is compared with a dense Galerkin assembly and solve written independently; Dirichlet zeros, mode independence and refusal of pure-Neumann problems are checked.',
+                note='trusted: pgv.refspline basis values, numpy dense solve; uniform radial breakpoints only (DESIGN note A).', ref='DESIGN.md section 3 C14'),
+    'C15': dict(cat='exploration', tech='bounded-exhaustive enumeration of (n_theta even/odd, chi, electron model, radial path, process grid) x impulse / mode / dense densities through the real distributed pipeline against numpy FFT + the dense Galerkin reference',
+                text='FFT round trip, per-mode reference with the chi / kinetic conventions, realness of the potential, exact zero for the equilibrium and the equilibrium as fixed point of a complete driver step are checked for every configuration of the lattice.',
+                note='trusted: numpy.fft ordering, dense Galerkin reference (C14), simmpi layouts.', ref='DESIGN.md section 3 C15'),
+    'C16': dict(cat='exploration', tech='bounded-exhaustive enumeration of (n_v, v degree, process grid, real/complex storage) x unit impulses / equilibrium / dense, repeated calls on poisoned density grids, against exact-rational quadrature weights',
+                text='Every density call is compared at all points with the exact integral of the interpolant (exact-rational weights) minus the equilibrium at the global radius; density grids are poisoned before every call so stale content is visible.',
+                note='trusted: pgv.refspline exact weights; independently coded equilibrium.', ref='DESIGN.md section 3 C16'),
+    'C17': dict(cat='exploration', tech='enumeration of (process grid, layout, field class incl. impulses) against serial quadrature of the global field; all combination orders of the reductions for <= 4 ranks',
+                text='Sums over ranks of every diagnostic, min/max with every (axis, fixValue) class at every drawing rank, and the DiagnosticCollector slots over two save periods are compared with serial quadrature of the global field under every reduction order.',
+                note='trusted: simmpi reductions (order supplied explicitly).', ref='DESIGN.md section 3 C17'),
+    'C18': dict(cat='model_checking', tech='explicit exploration of checkpoint/restart histories on the real driver over an mpio-emulating h5py layer: all compositions of the step count into segments x save intervals x grids; exhaustive writer x reader grid round trips, checkpoint subsets and key-order permutations',
+                text='State = contents of the result folder; transitions = driver segments; every history up to the bound must end in the same final checkpoints as the unsplit run; round trips between different process counts are bit-exact; latest/requested checkpoint selection is checked for every subset of a time alphabet with different digit counts; the constants file is parsed identically under all key permutations of the dependency chain.',
+                note='trusted: simh5 (one shared serial file stands for an mpio file), simmpi.', ref='DESIGN.md section 3 C18'),
+    'C19': dict(cat='exploration', tech='differential enumeration: scratch pyccel build of the working tree, every exported kernel called compiled vs interpreted over structural argument lattices; numba/pythran copies executed as plain Python',
+                text='The documented build must succeed on the current tree and export every kernel; each kernel is called with identical arguments in both forms over lattices of structural arguments (guard slabs expose out-of-bounds writes) and must agree to 1e-13; the source copies must define the same functions and agree as plain Python.',
+                note='compiled numba/pythran artefacts cannot be produced in this image and are not claimed.', ref='DESIGN.md section 3 C19'),
     'C20': dict(cat='exploration', tech='exhaustive enumeration of the (max1,max2,size) box and npts cube against brute-force divisor search; returned grids used to build layouts on the simulated MPI world',
                 text='All (max1,max2,size) in the box, all npts in the cube x size and a fixed lattice of large values are compared with brute-force divisor enumeration (valid pair, error iff none exists, termination by watchdog); the three standard layouts are built, checked non-empty and round-tripped on every returned grid of the layout family.',
                 note='trusted: simmpi; termination decided by per-slab wall-clock limit.', ref='DESIGN.md section 3 C20'),
